@@ -181,7 +181,7 @@ def rel_error(op, got, exp, unit, gain=mpf(1)):
     if op.result == "bool":
         return mpf(0) if bool(got) == bool(exp) else mpf("inf")
     if op.result == "vec":
-        grv = got.rv if isinstance(got, VecResult) else got
+        grv = got.rv if hasattr(got, "rv") else got
         if grv.dim != exp.dim:
             return mpf("inf")
         err = max(abs(a - b) for a, b in zip(grv.comps(), exp.comps()))
@@ -198,7 +198,7 @@ def rel_error(op, got, exp, unit, gain=mpf(1)):
 
 
 def is_finite_result(res):
-    if isinstance(res, VecResult):
+    if hasattr(res, "rv"):
         return all(mpmath.isfinite(c) for c in res.rv.comps())
     if isinstance(res, bool):
         return True
@@ -211,3 +211,82 @@ def f(x):
         return float(x)
     except Exception:
         return str(x)
+
+
+# ---------------------------------------------------------------------------
+# array backends: N cases that share (operation, signature) evaluated in one call
+
+class ElemVec:
+    """element i of an array-of-vectors result, canonicalised like VecResult"""
+
+    __slots__ = ("system", "stored", "rv", "cls", "momentum", "dim")
+
+    def __init__(self, system, stored, cls, momentum):
+        self.system, self.stored, self.cls, self.momentum = system, stored, cls, momentum
+        self.dim = len(system) + 1
+        self.rv = R.from_coords(system, stored)
+
+
+def _stack_scalar(kind, values, conv):
+    """values: one logical scalar argument per case -> array-valued argument"""
+    v0 = values[0]
+    if isinstance(v0, str):
+        assert all(v == v0 for v in values)
+        return v0
+    if isinstance(v0, dict):
+        return {k: conv([float(v[k]) for v in values]) for k in v0}
+    if isinstance(v0, (list, tuple)):
+        return [conv([float(v[i]) for v in values]) for i in range(len(v0))]
+    return conv([float(v) for v in values])
+
+
+def np_args(selfs, args_per_case, shape=None, scalar_mode="array"):
+    """Build the NumPy operands for N cases. scalar_mode: 'array' (one scalar per element)
+    or 'first' (the first case's scalar for all; callers must then use identical scalars)."""
+    n = len(selfs)
+    s0 = selfs[0]
+    v = B.mk_numpy_cls(s0.system, [l.f64()[0] for l in selfs], s0.momentum, shape)
+    out = []
+    nargs = len(args_per_case[0])
+    for j in range(nargs):
+        col = [a[j] for a in args_per_case]
+        if isinstance(col[0], LVec):
+            out.append(B.mk_numpy_cls(col[0].system, [l.f64()[0] for l in col], col[0].momentum, shape))
+        else:
+            def conv(vals):
+                arr = numpy.array(vals, dtype=numpy.float64)
+                return arr.reshape(shape) if shape is not None else arr
+            if scalar_mode == "array":
+                out.append(_stack_scalar(None, col, conv))
+            else:
+                out.append(_conv_scalar(col[0], float))
+    return v, out
+
+
+def canon_numpy(op, res, n):
+    """-> list of n canonical element results"""
+    from vector._methods import Momentum
+
+    if op.result == "vec":
+        system, rows = B.numpy_rows(res)
+        if len(rows) != n:
+            raise ValueError(f"{op.name}: result has {len(rows)} elements, expected {n}")
+        cls, mom = type(res).__name__, isinstance(res, Momentum)
+        return [ElemVec(system, row, cls, mom) for row in rows]
+    arr = numpy.asarray(res)
+    flat = arr.reshape(-1)
+    if flat.shape[0] != n:
+        if flat.shape[0] == 1:  # a scalar broadcast result
+            flat = numpy.repeat(flat, n)
+        else:
+            raise ValueError(f"{op.name}: result has {flat.shape[0]} elements, expected {n}")
+    if op.result == "bool":
+        if flat.dtype != numpy.bool_:
+            raise TypeError(f"{op.name}: expected bool array, got {flat.dtype}")
+        return [bool(x) for x in flat]
+    return [mpf(float(x)) for x in flat]
+
+
+def eval_numpy(op, selfs, args_per_case, shape=None):
+    v, a = np_args(selfs, args_per_case, shape)
+    return canon_numpy(op, op.call(v, *a), len(selfs)), v, a
